@@ -264,3 +264,31 @@ theorem new_total_real {p d : ℝ} (hb : |p * Real.pi / d| ≤ 2 ^ 42) :
       unfold T; rw [hr0, hnt]; push_cast; ring
 
 end GeonumModel.Exact
+
+namespace GeonumModel.Exact
+open GeonumModel FloatLike FloatSpec Angle
+
+/-- general path with a non-negative total: no whole turns are added — `T(new p d) = p·π/d + δ` -/
+theorem new_total_nonneg_real {p d : ℝ} (hb : |p * Real.pi / d| ≤ 2 ^ 42) (h0 : 0 ≤ p * Real.pi / d)
+    (hfast : (feq d (two : ℝ) && feq (FloatLike.fract p) (zero : ℝ)) = false) :
+    ∃ δ : ℝ, |δ| < 1 / 10 ^ 10 ∧ T (Angle.new p d) = p * Real.pi / d + δ := by
+  obtain ⟨n, hnt, hnt0, hntb, _, hn0⟩ := newTotal_real p d
+  have hn : n = 0 := hn0 h0
+  rw [hn] at hnt
+  simp only [Nat.cast_zero, zero_mul, add_zero] at hnt
+  have hbig : val (F := ℝ) (Angle.newTotal p d) ≤ 2 ^ 48 := by
+    show Angle.newTotal p d ≤ 2 ^ 48
+    have := Real.pi_lt_four
+    have : (2:ℝ) ^ 42 + 2 * 4 ≤ 2 ^ 48 := by norm_num
+    linarith
+  have hcore := (newCore_spec (F := ℝ) (Angle.newTotal p d) trivial hnt0 hbig).2
+  have hnew : Angle.new p d = normalizeBoundaries ⟨fmod (Angle.newTotal p d) qp,
+      toUsize (FloatLike.round (fdiv (fsub (Angle.newTotal p d) (fmod (Angle.newTotal p d) qp)) qp))⟩ := by
+    unfold Angle.new newGeneral; simp [hfast]
+  rw [← hnew, qp_real, e10_real] at hcore
+  simp only [val_id] at hcore
+  rcases hcore with ⟨_, hT⟩ | ⟨_, hr0, hT⟩
+  · exact ⟨0, by norm_num, by unfold T; rw [hT, hnt]; ring⟩
+  · exact ⟨_, hT, by unfold T; rw [hr0, hnt]; ring⟩
+
+end GeonumModel.Exact
